@@ -703,6 +703,36 @@ func (x *Run) useContract(fr *Frame, st *State, con *Contract, args []Val, site 
 	x.mu.Lock()
 	x.trusted["contract:"+x.fnShort(con.Fn)] = con.Trusted
 	x.mu.Unlock()
+	// a decoder / reader under contract (Read*, Decode*, Unmarshal*, ...) fills
+	// what it is handed: local variables of the caller handed over by address,
+	// and fresh objects handed over inside an interface value ("decode into
+	// this") - locations the callee's static mod-set does not name
+	decoder := false
+	{
+		tn := con.TargetName
+		if i := strings.LastIndexAny(tn, ".)"); i >= 0 {
+			tn = tn[i+1:]
+		}
+		for _, p := range []string{"Read", "Decode", "Unmarshal", "Scan", "UnPack"} {
+			if strings.HasPrefix(tn, p) {
+				decoder = true
+			}
+		}
+	}
+	if decoder && !(con.Modifies != nil && len(con.Modifies) == 0) {
+		for _, a := range args {
+			pa, boxed := a, false
+			if pa.Inner != nil {
+				pa, boxed = *pa.Inner, true
+			}
+			// (an object handed over inside an interface value - "decode into
+			// this" - is written through reflection / library code the static
+			// mod-set of the callee does not see)
+			if pa.Addr != nil && (pa.Addr.Kind == ACell || (boxed && pa.Addr.Kind == AObj && pa.Addr.Fresh)) {
+				x.havocPointee(st, pa)
+			}
+		}
+	}
 	cfn := con.Fn
 	all := append([]Val(nil), args...)
 	var bound []string
